@@ -8,27 +8,40 @@ Specification for C13 / C14 on the *abstract* sequence of lines `(indent, name, 
   * type, width/sign, dimension and unit come from the first occurrence; the value is the one
     of the last occurrence, converted from its unit (or the definition's unit when it has none)
     into the definition's unit;
-  * a different type, a unit of another dimension, an assignment after `!constant`, an
-    assignment to an undefined path, or a declared path never assigned make the whole parse fail.
+  * a different type, a unit of another dimension (including any unit for a parameter defined
+    without one), an assignment after `!constant`, an assignment to an undefined path, or a
+    declared path never assigned make the whole parse fail.
 
-The payload values are already typed (`Val`), there is no text and no casting here.
+The specification is generic in the representation `α` of a written value.  `Interp α` says what a
+written value means for a parameter of a given type and shape.  Two instances are used:
+`α = Val` (already typed values, `fitsInterp`; this is what the harness sends) and `α = Raw`
+(the raw text of the lexed line with the casts of `Params`, `castInterp`; this is what the
+refinement theorem `C14_parse_refines_spec` talks about).
 -/
 namespace SciVerif.C13
 
-inductive Payload where
+inductive Payload (α : Type) where
   | skip                                            -- blank / comment / $unit line
   | group
-  | defn (ty : Ty) (info : TyInfo) (dims : Option (List Dim)) (unit : Option Str) (v : Val)
-  | decl (ty : Ty) (info : TyInfo) (dims : Option (List Dim)) (unit : Option Str)
-  | assign (ty : Option Ty) (unit : Option Str) (v : Val)
-  | const
+  | const                                           -- `!constant`
+  /-- `name type[dims] [= value] [unit]`: definition, declaration (no value) or typed modification -/
+  | typed (ty : Ty) (info : TyInfo) (dims : Option (List Dim)) (unit : Option Str) (v : Option α)
+  /-- `name = value [unit]` -/
+  | mod (unit : Option Str) (v : α)
 deriving Repr, DecidableEq
 
-structure ALine where
+structure ALine (α : Type) where
   indent : Nat
   name : Str
-  p : Payload
-deriving Repr, DecidableEq
+  p : Payload α
+deriving Repr
+
+/-- what a written value means -/
+structure Interp (α : Type) where
+  /-- for the line's own type and shape (`node.set_value()`); `none` = no value object -/
+  init : Ty → Option (List Dim) → α → R (Option Val)
+  /-- for the type and shape of the parameter it is assigned to (`cast_value`) -/
+  cast : Ty → Option (List Dim) → α → R Val
 
 /-- Ancestors of a line with indentation `m`, nearest first, among the earlier name-bearing
     lines given latest-first: the nearest earlier line with a smaller indentation, then the
@@ -44,29 +57,28 @@ def parent? (m : Nat) (earlier : List (Nat × Str)) : Option (Nat × Str) :=
 def specPath (earlier : List (Nat × Str)) (d : Nat) (nm : Str) : Str :=
   joinWith ['.'] (((anc d earlier).reverse.map Prod.snd) ++ [nm])
 
-def Payload.nameBearing : Payload → Bool
-  | .group | .defn .. | .decl .. | .assign .. => true
+def Payload.nameBearing {α : Type} : Payload α → Bool
+  | .group | .typed .. | .mod .. => true
   | _ => false
 
-def Payload.valueBearing : Payload → Bool
-  | .defn .. | .decl .. | .assign .. => true
+def Payload.valueBearing {α : Type} : Payload α → Bool
+  | .typed .. | .mod .. => true
   | _ => false
 
-/-- occurrences `(path, payload)` of value-bearing lines in text order; a `!constant` line is
-    recorded under the path of the value-bearing line before it -/
-def occurrences : List (Nat × Str) → Option Str → List ALine → List (Str × Payload)
+/-- Occurrences `(path, payload)` of value-bearing lines in text order.  A `!constant` line is
+    recorded under the path of the most recently *created* parameter (`seen` = paths so far in
+    order of first appearance); with nothing to mark it is recorded under `none`. -/
+def occurrences {α : Type} : List (Nat × Str) → List Str → List (ALine α) → List (Option Str × Payload α)
   | _, _, [] => []
-  | earlier, last, l :: t =>
-    if l.p.nameBearing then
+  | earlier, seen, l :: t =>
+    match l.p with
+    | .skip => occurrences earlier seen t
+    | .const => (seen.getLast?, .const) :: occurrences earlier seen t
+    | .group => occurrences ((l.indent, l.name) :: earlier) seen t
+    | p =>
       let path := specPath earlier l.indent l.name
-      let earlier' := (l.indent, l.name) :: earlier
-      if l.p.valueBearing then (path, l.p) :: occurrences earlier' (some path) t
-      else occurrences earlier' last t
-    else if l.p = .const then
-      match last with
-      | some path => (path, .const) :: occurrences earlier last t
-      | none => ([], .const) :: occurrences earlier last t     -- nothing to mark: error below
-    else occurrences earlier last t
+      (some path, p) :: occurrences ((l.indent, l.name) :: earlier)
+        (if seen.contains path then seen else seen ++ [path]) t
 
 def atomFits (ty : Ty) : Atom → Bool
   | .bool _ => ty == .bool
@@ -81,77 +93,119 @@ def fits (ty : Ty) (dims : Option (List Dim)) : Val → Bool
     (match dims with | some ds => checkDims ds sh | none => false) && el.all (atomFits ty) &&
       el.length == sh.foldl (· * ·) 1
 
+/-- already typed values: they must be literals of the type and shape -/
+def fitsInterp : Interp Val where
+  init := fun ty dims v => if fits ty dims v then .ok (some v) else .error .fail
+  cast := fun ty dims v => if fits ty dims v then .ok v else .error .fail
+
+/-- raw text of a lexed line with the casts of the implementation -/
+def castInterp (P : Params) : Interp Raw where
+  init := fun ty dims r => initValue P ty dims (some r)
+  cast := fun ty dims r => match r with
+    | .text s => P.castText ty dims s
+    | .cells _ _ => .error .unsupported
+
 structure SNode where
   name : Str
   ty : Ty
   info : TyInfo
   dims : Option (List Dim)
   units : Option Str
-  value : Option Val          -- `none`: declared, not yet assigned
+  value : Option Val          -- `none`: no value object (declared, not yet assigned)
   frozen : Bool := false
 deriving Repr, DecidableEq
 
-/-- "last assignment wins, in the unit of the definition" for one later occurrence -/
-def assignTo (conv : Str → Str → Rat → R Rat) (s : SNode) : Payload → R SNode
-  | .const => .ok { s with frozen := true }
-  | .assign ty u v =>
-    if s.frozen then .error .fail
-    else if (match ty with | some t => t != s.ty | none => false) then .error .fail
-    else if !fits s.ty s.dims v then .error .fail
-    else if v = .none then .ok { s with value := some .none }
-    else match s.units, u with
-      | none, some _ => .error .unsupported        -- outside the quantified domain (see ASSUMPTIONS)
-      | some u0, some uk =>
-        if uk = u0 then .ok { s with value := some v }
-        else match v with
-          | .scalar (.num q) => do
-              let q' ← conv uk u0 q
-              .ok { s with value := some (.scalar (.num q')) }
-          | .array sh el => do
-              let el' ← mapAtoms (conv uk u0) el
-              .ok { s with value := some (.array sh el') }
-          | _ => .error .fail
-      | _, none => .ok { s with value := some v }
-  | _ => .error .unsupported
+/-- units written on typed lines must exist; bool / str typed lines carry none -/
+def unitsOk {α : Type} (unitKnown : Str → Bool) : Payload α → Bool
+  | .typed ty _ _ (some u) _ => (ty == .int || ty == .float) && unitKnown u
+  | _ => true
 
-def firstOf (path : Str) : Payload → R SNode
-  | .defn ty info dims u v =>
-    if fits ty dims v then .ok { name := path, ty, info, dims, units := u, value := some v }
-    else .error .fail
-  | .decl ty info dims u => .ok { name := path, ty, info, dims, units := u, value := none }
+/-- the value `r` written with unit `uk` assigned to parameter `s`: cast to the parameter's type
+    and shape, `none` stays `none`, otherwise converted into the parameter's unit -/
+def assignValue {α : Type} (I : Interp α) (conv : Str → Str → Rat → R Rat) (s : SNode)
+    (uk : Option Str) (r : α) : R SNode := do
+  let v ← I.cast s.ty s.dims r
+  if v = .none then .ok { s with value := some .none }
+  else do
+    let v' ← convertG conv s.ty s.units uk v
+    .ok { s with value := some v' }
+
+/-- one later occurrence of a path -/
+def assignTo {α : Type} (I : Interp α) (conv : Str → Str → Rat → R Rat) (unitKnown : Str → Bool)
+    (s : SNode) (p : Payload α) : R SNode :=
+  match p with
+  | .const => .ok { s with frozen := true }
+  | .typed ty info dims u v =>
+    if !unitsOk unitKnown (.typed ty info dims u v) then .error .fail
+    else if s.frozen then .error .fail
+    else if ty != s.ty then .error .fail
+    else match v with
+      | none => .error .fail                      -- a line without value assigns nothing
+      | some r => do
+        -- a typed modification is a definition of its own: its value must fit its own shape
+        let _ ← I.init ty dims r
+        assignValue I conv s u r
+  | .mod u r =>
+    if s.frozen then .error .fail else assignValue I conv s u r
+  | _ => .error .fail
+
+/-- the first occurrence of a path -/
+def firstOf {α : Type} (I : Interp α) (unitKnown : Str → Bool) (path : Str) (p : Payload α) : R SNode :=
+  match p with
+  | .typed ty info dims u v =>
+    if !unitsOk unitKnown (.typed ty info dims u v) then .error .fail
+    else match v with
+      | some r => do
+          let w ← I.init ty dims r
+          .ok { name := path, ty, info, dims, units := u, value := w }
+      | none => .ok { name := path, ty, info, dims, units := u, value := none }
   | _ => .error .fail                                -- assignment to an undefined path
 
-def foldAssign (conv : Str → Str → Rat → R Rat) : SNode → List Payload → R SNode
+def foldAssign {α : Type} (I : Interp α) (conv : Str → Str → Rat → R Rat) (unitKnown : Str → Bool) :
+    SNode → List (Payload α) → R SNode
   | s, [] => .ok s
   | s, p :: t => do
-      let s' ← assignTo conv s p
-      foldAssign conv s' t
+      let s' ← assignTo I conv unitKnown s p
+      foldAssign I conv unitKnown s' t
+
+/-- all payloads recorded under `path`, in text order -/
+def occOf {α : Type} (path : Str) (os : List (Option Str × Payload α)) : List (Payload α) :=
+  (os.filter (fun o => o.1 == some path)).map Prod.snd
 
 /-- the parameter for one path from all its occurrences -/
-def specNode (conv : Str → Str → Rat → R Rat) (path : Str) (os : List (Str × Payload)) : R SNode :=
-  match (os.filter (fun o => o.1 = path)).map Prod.snd with
+def specNode {α : Type} (I : Interp α) (conv : Str → Str → Rat → R Rat) (unitKnown : Str → Bool)
+    (path : Str) (os : List (Option Str × Payload α)) : R SNode :=
+  match occOf path os with
   | [] => .error .fail
   | f :: later => do
-      let s ← firstOf path f
-      let s' ← foldAssign conv s later
-      if s'.value.isNone then .error .fail else .ok s'
+      let s ← firstOf I unitKnown path f
+      foldAssign I conv unitKnown s later
 
-def dedup : List Str → List Str
+/-- the elements of the list that are not in `seen`, each once, in order of first appearance -/
+def dedupFrom (seen : List Str) : List Str → List Str
   | [] => []
-  | a :: t => a :: (dedup t).filter (fun b => b != a)
+  | a :: t => if seen.contains a then dedupFrom seen t else a :: dedupFrom (a :: seen) t
+
+/-- distinct paths in order of first appearance -/
+def pathsOf {α : Type} (os : List (Option Str × Payload α)) : List Str :=
+  dedupFrom [] (os.filterMap (fun o => o.1))
+
+/-- the whole specification on occurrences -/
+def specOcc {α : Type} (I : Interp α) (conv : Str → Str → Rat → R Rat) (unitKnown : Str → Bool)
+    (os : List (Option Str × Payload α)) : R (List SNode) :=
+  if os.any (fun o => o.1.isNone) then .error .fail            -- `!constant` with nothing to mark
+  else do
+    let ns ← (pathsOf os).mapM (fun p => specNode I conv unitKnown p os)
+    if ns.any (fun s => s.value.isNone) then .error .fail       -- declared, never assigned
+    else .ok ns
 
 /-- the whole specification -/
-def specRun (conv : Str → Str → Rat → R Rat) (unitKnown : Str → Bool) (ls : List ALine) :
-    R (List SNode) :=
-  let os := occurrences [] none ls
-  -- units written on numeric lines must exist; bool / str lines carry no unit
-  let unitsOk := ls.all (fun l => match l.p with
-    | .defn ty _ _ (some u) _ => (ty == .int || ty == .float) && unitKnown u
-    | .decl ty _ _ (some u) => (ty == .int || ty == .float) && unitKnown u
-    | .assign (some ty) (some u) _ => (ty == .int || ty == .float) && unitKnown u
-    | _ => true)
-  if !unitsOk then .error .fail
-  else if os.any (fun o => o.1.isEmpty && o.2 = .const) then .error .fail
-  else (dedup ((os.filter (fun o => o.2.valueBearing)).map Prod.fst)).mapM (fun p => specNode conv p os)
+def specRunG {α : Type} (I : Interp α) (conv : Str → Str → Rat → R Rat) (unitKnown : Str → Bool)
+    (ls : List (ALine α)) : R (List SNode) :=
+  specOcc I conv unitKnown (occurrences [] [] ls)
+
+/-- on typed values (what the harness sends) -/
+def specRun (conv : Str → Str → Rat → R Rat) (unitKnown : Str → Bool) (ls : List (ALine Val)) : R (List SNode) :=
+  specRunG fitsInterp conv unitKnown ls
 
 end SciVerif.C13
